@@ -85,7 +85,7 @@ Proof.
 Qed.
 
 Lemma b32_step8 c : b32 c -> b32 (crc_step8 c).
-Proof. intro H. unfold crc_step8. repeat apply b32_crc_bit. exact H. Qed.
+Proof. intro H. unfold crc_step8. do 8 apply b32_crc_bit. exact H. Qed.
 
 Lemma crc_step8_linear a b : crc_step8 (N.lxor a b) = N.lxor (crc_step8 a) (crc_step8 b).
 Proof. unfold crc_step8. rewrite !crc_bit_linear. reflexivity. Qed.
@@ -93,8 +93,15 @@ Proof. unfold crc_step8. rewrite !crc_bit_linear. reflexivity. Qed.
 Lemma crc_step8_inj a b : b32 a -> b32 b -> crc_step8 a = crc_step8 b -> a = b.
 Proof.
   intros Ha Hb. unfold crc_step8. intro E.
-  repeat (apply crc_bit_inj in E; [ | repeat apply b32_crc_bit; assumption | repeat apply b32_crc_bit; assumption ]).
-  exact E.
+  pose proof (b32_crc_bit _ Ha) as A1. pose proof (b32_crc_bit _ A1) as A2. pose proof (b32_crc_bit _ A2) as A3.
+  pose proof (b32_crc_bit _ A3) as A4. pose proof (b32_crc_bit _ A4) as A5. pose proof (b32_crc_bit _ A5) as A6.
+  pose proof (b32_crc_bit _ A6) as A7.
+  pose proof (b32_crc_bit _ Hb) as B1. pose proof (b32_crc_bit _ B1) as B2. pose proof (b32_crc_bit _ B2) as B3.
+  pose proof (b32_crc_bit _ B3) as B4. pose proof (b32_crc_bit _ B4) as B5. pose proof (b32_crc_bit _ B5) as B6.
+  pose proof (b32_crc_bit _ B6) as B7.
+  apply crc_bit_inj in E; auto. apply crc_bit_inj in E; auto. apply crc_bit_inj in E; auto.
+  apply crc_bit_inj in E; auto. apply crc_bit_inj in E; auto. apply crc_bit_inj in E; auto.
+  apply crc_bit_inj in E; auto. apply crc_bit_inj in E; auto.
 Qed.
 
 Lemma b32_crc_byte c b : b32 c -> b < 256 -> b32 (crc_byte c b).
